@@ -190,15 +190,20 @@ def inline_aliases(tree: ast.Module, modname: str) -> int:
     table = localsig.load_table().get(modname)
     if not table:
         return 0
+    from .inline import known_funcs
+    known = set(known_funcs().get(modname, []))
     n = 0
     for q, fn in localsig.top_functions(tree):
         ref = table.get(q)
         if ref is None:
-            continue
+            if q not in known:
+                continue
+            ref = {}  # a known function without locals in the reference tree
         sigs = localsig.signatures(fn)
         unknown = {nm for nm, key in sigs.items() if key not in ref and nm not in ref.values()}
         n += inline_aliases_in(fn, unknown)
         n += loops_to_comprehensions(fn, unknown)
+        n += worklist_to_recursion(fn, unknown)
     if n:
         ast.fix_missing_locations(tree)
     return n
@@ -259,3 +264,73 @@ def loops_to_comprehensions(fn: ast.AST, unknown: Set[str]) -> int:
                     del b[i - 1]
                     i -= 1
     return done
+
+
+# --------------------------------------------------------------------------- explicit work lists
+def worklist_to_recursion(fn: ast.AST, unknown: Set[str]) -> int:
+    """`W = [p]; while W: x = W.pop(); BODY` where p is a parameter, W a local the reference tree does not know and BODY
+    touches W only through `W.append(e)` / `W.extend([e, ...])` is the explicit-stack spelling of the recursion
+    `BODY[x := p, W.append(e) := f(..., e)]` (`replace recursion with iteration`). The visiting order may differ; the set of
+    visited nodes and what is done at each does not, which is what the rules read."""
+    if not isinstance(fn, ast.FunctionDef):
+        return 0
+    body = [s for s in fn.body if not (isinstance(s, ast.Expr) and isinstance(s.value, ast.Constant))]
+    if len(body) != 2:
+        return 0
+    init, loop = body
+    if not (isinstance(init, ast.Assign) and len(init.targets) == 1 and isinstance(init.targets[0], ast.Name) and init.targets[0].id in unknown
+            and isinstance(init.value, ast.List) and len(init.value.elts) == 1 and isinstance(init.value.elts[0], ast.Name)):
+        return 0
+    W, p = init.targets[0].id, init.value.elts[0].id
+    params = [a.arg for a in fn.args.posonlyargs + fn.args.args]
+    if p not in params or fn.args.vararg or fn.args.kwarg or fn.args.kwonlyargs:
+        return 0
+    if not (isinstance(loop, ast.While) and not loop.orelse and isinstance(loop.test, ast.Name) and loop.test.id == W and loop.body):
+        return 0
+    first = loop.body[0]
+    if not (isinstance(first, ast.Assign) and len(first.targets) == 1 and isinstance(first.targets[0], ast.Name)
+            and isinstance(first.value, ast.Call) and isinstance(first.value.func, ast.Attribute) and first.value.func.attr in ("pop", "popleft")
+            and isinstance(first.value.func.value, ast.Name) and first.value.func.value.id == W):
+        return 0
+    x = first.targets[0].id
+    rest = loop.body[1:]
+    if any(isinstance(n, (ast.Break, ast.Continue, ast.Return)) for s in rest for n in ast.walk(s)):
+        return 0
+    is_method = params and params[0] == "self"
+
+    def call(e):
+        args = [e if a == p else ast.Name(id=a, ctx=ast.Load()) for a in params if not (is_method and a == "self")]
+        f = ast.Attribute(value=ast.Name(id="self", ctx=ast.Load()), attr=fn.name, ctx=ast.Load()) if is_method else ast.Name(id=fn.name, ctx=ast.Load())
+        return ast.Expr(value=ast.Call(func=f, args=args, keywords=[]))
+
+    ok = [True]
+
+    class T(ast.NodeTransformer):
+        def visit_Expr(self, n):
+            c = n.value
+            if isinstance(c, ast.Call) and isinstance(c.func, ast.Attribute) and isinstance(c.func.value, ast.Name) and c.func.value.id == W:
+                if c.func.attr == "append" and len(c.args) == 1:
+                    return ast.copy_location(call(self.visit(c.args[0])), n)
+                if c.func.attr == "extend" and len(c.args) == 1 and isinstance(c.args[0], (ast.List, ast.Tuple)):
+                    return [ast.copy_location(call(self.visit(e)), n) for e in c.args[0].elts]
+                ok[0] = False
+            self.generic_visit(n)
+            return n
+
+        def visit_Name(self, n):
+            if n.id == W:
+                ok[0] = False
+            if n.id == x:
+                return ast.copy_location(ast.Name(id=p, ctx=n.ctx), n)
+            return n
+
+    new = []
+    for s in copy.deepcopy(rest):
+        r = T().visit(s)
+        new += r if isinstance(r, list) else [r]
+    if not ok[0] or not new:
+        return 0
+    doc = [s for s in fn.body if isinstance(s, ast.Expr) and isinstance(s.value, ast.Constant)][:1]
+    fn.body = doc + new
+    ast.fix_missing_locations(fn)
+    return 1
